@@ -8,7 +8,7 @@
 // What is stubbed: `Tokenizer::next` -> advances to `Token::EOF` without scanning (the scanner is
 //                not the subject; it drags the operator registries and rust_decimal into symex).
 //
-// Input layout (order of kani::any() calls; keep in sync with LAYOUTS in run_kani.py):
+// Input layout (order of kani::any() calls; keep in sync with the "layout" entries of HARNESSES in run_kani.py):
 //   tok_kind: u8   0 Delim, 1 Operator, 2 Comma, 3 Semicolon, 4 Reference, 5 EOF
 //   delim_sel: u8  0 "(", 1 ")", 2 "[", 3 "]", 4 "{", 5 "}", 6 Unknown("??")   (used iff Delim)
 //   op_sel: u8     0 "+", 1 ":", 2 "?", 3 "=", 4 ",", 5 "("                  (used iff Operator)
